@@ -65,6 +65,13 @@ def setup():
                 f.write("x")
         os.makedirs(os.path.join(d, names[3]))
     os.makedirs(os.path.join(root, "noindex"))
+    # directories whose own names carry the payloads (a '/' in a payload makes nested directories)
+    for payload in PAYLOADS.values():
+        d = os.path.join(root, "dirs", *payload.split("/"))
+        os.makedirs(d)
+        with open(os.path.join(d, "f.txt"), "w") as f:
+            f.write("x")
+        os.makedirs(os.path.join(d, "sub"))
     app = Application("verif_c15_%d" % os.getpid())
     app.document_root = root
     app.document_index = True
@@ -142,6 +149,8 @@ def request(page, place, payload, debug):
             tail = payload
     if place == "filenames":
         path = "/nasty/" if payload != "safe" else "/plain/"
+    if place == "dirname":
+        path = "/dirs/" + payload + "/"
     env["PATH_INFO"] = path.encode("utf-8").decode("latin-1")
     if place == "query" or tail:
         env["QUERY_STRING"] = "q=" + (tail or payload)
@@ -202,6 +211,8 @@ def generate(rng, tier):
             cases.append(mk(page, "method", "tok", debug))
             if page == "listing":
                 cases.append(mk(page, "filenames", "nasty", debug))
+                for pkey in ("elem", "dq", "sq", "combo"):
+                    cases.append(mk(page, "dirname", pkey, debug))      # the listed directory's own name
     n = 2000 if tier == "thorough" else 400
     pool = "ab<>\"'&;=/ \\éŽ\U0001F600\n\t%"
     for _ in range(n):
